@@ -74,6 +74,17 @@ def quads {β : Type} : List β → List (β × β × β × β)
   | a :: b :: c :: d :: rest => (a, b, c, d) :: quads rest
   | _ => []
 
+def cxs : List Float → List (Cx Float)
+  | a :: b :: r => ⟨a, b⟩ :: cxs r
+  | _ => []
+
+def cv3s (l : List Float) : List (CV3 Float) := (triples (cxs l))
+def flatCx (l : List (Cx Float)) : List Float := l.flatMap fun z => [z.re, z.im]
+def flatCV3 (l : List (CV3 Float)) : List Float := flatCx (flat3 l)
+def chunks {β : Type} (n : Nat) : Nat → List β → List (List β)
+  | 0, _ => []
+  | m + 1, l => l.take n :: chunks n m (l.drop n)
+
 def step (line : String) : String :=
   match (line.trimAscii.toString.splitOn " ").filter (· ≠ "") with
   -- C19 ---------------------------------------------------------------
@@ -196,7 +207,37 @@ def step (line : String) : String :=
       let ss := (quads (rest.map pF)).map fun q => ((q.1, q.2.1, q.2.2.1), q.2.2.2)
       sF (largestOverlap ss)
   | "spherector" :: rest => if sphereCtorOk (rest.map pQ) then "ok" else "err:InvalidScatterer"
-  | ["genfailures"] => toString translationFailures
+  -- image formation (C01, C04-C07) ----------------------------------------
+  | "tovector" :: c => t3 (toVector (c.map pF))
+  | ["wavevec", l, n] => sF (waveVec (pF l) (pF n))
+  | "positions" :: sys :: k :: ox :: oy :: oz :: pts =>
+      let o := (pF ox, pF oy, pF oz)
+      let ps := triples (pts.map pF)
+      sFs (flat3 (if sys == "cyl" then positionsCyl (pF k) o ps else positionsSph (pF k) o ps))
+  | "positionsfromsph" :: k :: pts => sFs (flat3 (positionsFromSph (pF k) (triples (pts.map pF))))
+  | ["gridpoints", nx, ny, sx, sy, z] => sFs (flat3 (gridPoints (pN nx) (pN ny) (pF sx) (pF sy) (pF z)))
+  | "field" :: k :: cz :: raw => sFs (flatCV3 (fieldOf (pF k) (pF cz) (cv3s (raw.map pF))))
+  | "holo" :: sc :: px :: py :: pz :: e =>
+      sFs ((cv3s (e.map pF)).map (holoPixel (pF sc) (pF px, pF py, pF pz)))
+  | "intensity" :: e => sFs ((cv3s (e.map pF)).map intensityPixel)
+  | "superpose" :: m :: n :: fs =>
+      let per := 6 * pN n
+      sFs (flatCV3 (superpose ((chunks per (pN m) (fs.map pF)).map cv3s)))
+  | ["incfield", ex, ey, phi] => let r := incfield (pF ex) (pF ey) (pF phi); sFs [r.1, r.2]
+  | ["fieldstocart", a, b, c, d, th, ph] =>
+      let r := fieldstocart (⟨pF a, pF b⟩ : Cx Float) ⟨pF c, pF d⟩ (pF th) (pF ph); sFs (flatCx [r.1, r.2.1, r.2.2])
+  | ["radialvect", a, b, th, ph] =>
+      let r := radial_vect_to_cart (⟨pF a, pF b⟩ : Cx Float) (pF th) (pF ph); sFs (flatCx [r.1, r.2.1, r.2.2])
+  | ["calcscatfield", kr, phi, a, b, c, d, e, f, g, h, e1, e2] =>
+      let r := calc_scat_field (pF kr) (pF phi) (⟨pF a, pF b⟩ : Cx Float) ⟨pF c, pF d⟩ ⟨pF e, pF f⟩ ⟨pF g, pF h⟩ (pF e1) (pF e2)
+      sFs (flatCx [r.1, r.2])
+  | ["smatpoint", a, b, c, d, e, f, g, h, kr, th, ph, e1, e2] =>
+      let r := smatPoint (⟨pF a, pF b⟩ : Cx Float) ⟨pF c, pF d⟩ ⟨pF e, pF f⟩ ⟨pF g, pF h⟩ (pF kr) (pF th) (pF ph) (pF e1) (pF e2)
+      sFs (flatCx [r.1, r.2.1, r.2.2])
+  | ["miepointrad", a, b, c, d, e, f, kr, th, ph, e1, e2] =>
+      let r := miePointRad (⟨pF a, pF b⟩ : Cx Float) ⟨pF c, pF d⟩ ⟨pF e, pF f⟩ (pF kr) (pF th) (pF ph) (pF e1) (pF e2)
+      sFs (flatCx [r.1, r.2.1, r.2.2])
+  | ["genfailures"] => toString (translationFailures ++ projTranslationFailures)
   | _ => "bad-op"
 
 partial def loop (h : IO.FS.Stream) : IO Unit := do
